@@ -22,11 +22,18 @@ def callRefusal (env : DEnv) (allow : Bool) (reg : Reg) (caller callee : SessKey
 
 def optTimeout (opts : Dict) : Int := match opts.get? OptTimeout with | some (.int i) => i | _ => 0
 
-def forwardsTimeout (env : DEnv) (reg : Reg) (callee : SessKey) : Bool :=
-  hasFeat env callee RoleCallee FeatureCallTimeout && reg.fwdTimeout
+/-- is the timeout forwarded: the callee announced `call_timeout` and the registration has `forward_timeout`
+    (`fwd`; a later chunk uses the flag stored in the invocation at the first chunk) -/
+def forwardsF (env : DEnv) (fwd : Bool) (callee : SessKey) : Bool :=
+  hasFeat env callee RoleCallee FeatureCallTimeout && fwd
+
+def forwardsTimeout (env : DEnv) (reg : Reg) (callee : SessKey) : Bool := forwardsF env reg.fwdTimeout callee
+
+def routerTimeoutF (env : DEnv) (fwd : Bool) (callee : SessKey) (opts : Dict) : Nat :=
+  if optTimeout opts > 0 && !forwardsF env fwd callee then (optTimeout opts).toNat else 0
 
 def routerTimeout (env : DEnv) (reg : Reg) (callee : SessKey) (opts : Dict) : Nat :=
-  if optTimeout opts > 0 && !forwardsTimeout env reg callee then (optTimeout opts).toNat else 0
+  routerTimeoutF env reg.fwdTimeout callee opts
 
 def invDetails (env : DEnv) (reg : Reg) (caller callee : SessKey) (opts : Dict) (proc : String) : Dict :=
   let details0 : Dict := [(OptProgress, .bool (opts.optFlag OptProgress))]
@@ -56,9 +63,9 @@ def dispatch (env : DEnv) (s : DState) (caller : SessKey) (req : Nat) (callee : 
   if env.full callee then syncError s callee invReq [] ErrNetworkFailure [.str "<text>"] []
   else { st := armTimer env s caller req v timeout, sends := [⟨callee, m⟩] }
 
-def newInvk (s : DState) (caller : SessKey) (req : Nat) (callee : SessKey) (opts : Dict) : Invk :=
+def newInvk (s : DState) (reg : Reg) (caller : SessKey) (req : Nat) (callee : SessKey) (opts : Dict) : Invk :=
   { id := ⟨callee, (invGenNext s.invGen callee).1⟩, callId := ⟨caller, req⟩, callee := callee,
-    inProgress := opts.optFlag OptProgress, options := opts }
+    inProgress := opts.optFlag OptProgress, options := opts, regId := reg.id, fwdTimeout := reg.fwdTimeout }
 
 def recordCall (s : DState) (v : Invk) (callee : SessKey) : DState :=
   { s with d := { s.d with calls := s.d.calls ++ [v.callId], invs := s.d.invs ++ [v],
@@ -78,7 +85,7 @@ def firstChunk (env : DEnv) (s : DState) (reg : Reg) (caller : SessKey) (req : N
     { st := { s with d := s.d.setReg reg' }, sends := [⟨caller, errMsg tCALL req ErrOptionDisallowedDiscloseMe⟩] }
   else
     let s1 : DState := { s with d := s.d.setReg reg' }
-    let v := newInvk s1 caller req callee opts
+    let v := newInvk s1 reg caller req callee opts
     dispatch env (recordCall s1 v callee) caller req callee v.id.req v (routerTimeout env reg callee opts)
       (.invocation v.id.req reg.id (invDetails env reg caller callee opts proc) args kw)
 
@@ -89,9 +96,9 @@ theorem firstChunk_eq (env : DEnv) (s : DState) (reg : Reg) (caller : SessKey) (
       | some (.err e) => { st := { s with d := s.d.setReg reg' }, sends := [⟨caller, errMsg tCALL req e⟩] }
       | some .abort => { st := { s with d := s.d.setReg reg' }, sends := [⟨caller, abortMsg "<text>"⟩], aborts := [caller] }
       | none =>
-        dispatch env (recordCall { s with d := s.d.setReg reg' } (newInvk s caller req callee opts) callee) caller req callee
-          (newInvk s caller req callee opts).id.req (newInvk s caller req callee opts) (routerTimeout env reg callee opts)
-          (.invocation (newInvk s caller req callee opts).id.req reg.id (invDetails env reg caller callee opts proc) args kw) := by
+        dispatch env (recordCall { s with d := s.d.setReg reg' } (newInvk s reg caller req callee opts) callee) caller req callee
+          (newInvk s reg caller req callee opts).id.req (newInvk s reg caller req callee opts) (routerTimeout env reg callee opts)
+          (.invocation (newInvk s reg caller req callee opts).id.req reg.id (invDetails env reg caller callee opts proc) args kw) := by
   unfold firstChunk callRefusal
   split
   · rfl
@@ -103,60 +110,65 @@ theorem firstChunk_eq (env : DEnv) (s : DState) (reg : Reg) (caller : SessKey) (
         · rfl
         · rfl
 
-def laterChunk (env : DEnv) (s : DState) (reg : Reg) (caller : SessKey) (req : Nat) (opts : Dict)
+def laterChunk (env : DEnv) (s : DState) (caller : SessKey) (req : Nat) (opts : Dict)
     (args : List WVal) (kw : Dict) (iid : ReqId) (v0 : Invk) : DOut :=
   let v : Invk := { v0 with inProgress := opts.optFlag OptProgress }
-  dispatch env { s with d := s.d.setInv v } caller req v.callee iid.req v (routerTimeout env reg v.callee v.options)
-    (.invocation iid.req reg.id [(OptProgress, .bool (opts.optFlag OptProgress))] args kw)
+  dispatch env { s with d := s.d.setInv v } caller req v.callee iid.req v (routerTimeoutF env v.fwdTimeout v.callee v.options)
+    (.invocation iid.req v.regId [(OptProgress, .bool (opts.optFlag OptProgress))] args kw)
 
-/-- the answer to a CALL that resolves to no callee: a later chunk of a pending call ends that call
-    (through `syncCancel`, hence at most once), any other CALL is refused -/
-def noProc (env : DEnv) (s : DState) (caller : SessKey) (req : Nat) : DOut :=
-  if (s.d.byCall? ⟨caller, req⟩).isSome then
-    syncCancel env s caller req CancelModeKillNoWait ErrNoSuchProcedure []
-  else { st := s, sends := [⟨caller, errMsg tCALL req ErrNoSuchProcedure⟩] }
+/-- the caller uses progressive call invocations without having announced them: ABORT, session aborted -/
+def progressAbort (s : DState) (caller : SessKey) : DOut :=
+  { st := s, sends := [⟨caller, abortMsg "<text>"⟩], aborts := [caller] }
 
 theorem syncCall_eq (env : DEnv) (s : DState) (caller : SessKey) (req : Nat) (opts : Dict) (proc : String)
     (args : List WVal) (kw : Dict) (rnd : Nat) :
     syncCall env s caller req opts proc args kw rnd =
-      match s.d.matchProcedure proc with
-      | none => noProc env s caller req
-      | some reg =>
-        if reg.callees.isEmpty then noProc env s caller req
-        else if opts.optFlag OptProgress && !hasFeat env caller RoleCaller FeatureProgCallInvocations then
-          { st := s, sends := [⟨caller, abortMsg "<text>"⟩], aborts := [caller] }
-        else
-          match s.d.byCall? ⟨caller, req⟩ with
-          | none =>
+      match s.d.byCall? ⟨caller, req⟩ with
+      | some iid =>
+        match s.d.findInv iid with
+        | none => { st := s, panic := some "syncCall: invocationByCall entry without invocation (nil dereference)" }
+        | some v0 =>
+          if opts.optFlag OptProgress && !hasFeat env caller RoleCaller FeatureProgCallInvocations then
+            progressAbort s caller
+          else laterChunk env s caller req opts args kw iid v0
+      | none =>
+        match s.d.matchProcedure proc with
+        | none => { st := s, sends := [⟨caller, errMsg tCALL req ErrNoSuchProcedure⟩] }
+        | some reg =>
+          if reg.callees.isEmpty then { st := s, sends := [⟨caller, errMsg tCALL req ErrNoSuchProcedure⟩] }
+          else if opts.optFlag OptProgress && !hasFeat env caller RoleCaller FeatureProgCallInvocations then
+            progressAbort s caller
+          else
             match pickCallee reg rnd with
             | none => { st := s, panic := some "syncCall: multiple callees registered with single policy" }
-            | some (callee, reg') => firstChunk env s reg caller req opts proc args kw callee reg'
-          | some iid =>
-            match s.d.findInv iid with
-            | none => { st := s, panic := some "syncCall: invocationByCall entry without invocation (nil dereference)" }
-            | some v0 => laterChunk env s reg caller req opts args kw iid v0 := by
+            | some (callee, reg') => firstChunk env s reg caller req opts proc args kw callee reg' := by
   unfold syncCall
-  cases s.d.matchProcedure proc with
-  | none => rfl
-  | some reg =>
+  dsimp only
+  cases s.d.byCall? ⟨caller, req⟩ with
+  | some iid =>
     simp only []
-    by_cases h1 : reg.callees.isEmpty = true
-    · rw [if_pos h1, if_pos h1]; rfl
-    · rw [if_neg h1, if_neg h1]
+    cases s.d.findInv iid with
+    | none => rfl
+    | some v0 =>
+      simp only []
       by_cases h2 : (opts.optFlag OptProgress && !hasFeat env caller RoleCaller FeatureProgCallInvocations) = true
-      · rw [if_pos h2, if_pos h2]
-      · rw [if_neg h2, if_neg h2]
-        cases s.d.byCall? ⟨caller, req⟩ with
-        | none =>
-          simp only []
+      · rw [if_pos h2, if_pos h2]; rfl
+      · rw [if_neg h2, if_neg h2]; rfl
+  | none =>
+    simp only []
+    cases s.d.matchProcedure proc with
+    | none => rfl
+    | some reg =>
+      simp only []
+      by_cases h1 : reg.callees.isEmpty = true
+      · rw [if_pos h1, if_pos h1]
+      · rw [if_neg h1, if_neg h1]
+        by_cases h2 : (opts.optFlag OptProgress && !hasFeat env caller RoleCaller FeatureProgCallInvocations) = true
+        · rw [if_pos h2, if_pos h2]; rfl
+        · rw [if_neg h2, if_neg h2]
           cases pickCallee reg rnd with
           | none => rfl
           | some p =>
             obtain ⟨callee, reg'⟩ := p
             rfl
-        | some iid =>
-          simp only []
-          cases s.d.findInv iid with
-          | none => rfl
-          | some v0 => rfl
 end Nexus.L2
